@@ -40,7 +40,10 @@ def parts(tier):
     return [dict(part="prim", cfg="trace256", shards=2),
             dict(part="reg", cfg="trace256", shards=10 if q else 14),
             dict(part="reg", cfg="trace255", shards=4 if q else 6),
-            dict(part="reg", cfg="trace381", shards=4 if q else 6)]
+            dict(part="reg", cfg="trace381", shards=4 if q else 6),
+            # the regular recodings under other window widths (RLC_WIDTH is a build option in [2, 6])
+            dict(part="reg", cfg="trace256w2", shards=6 if q else 14)] + \
+        ([] if q else [dict(part="reg", cfg="trace256w6", shards=14), dict(part="reg", cfg="trace255w3", shards=6)])
 
 
 class Tracer(object):
@@ -397,13 +400,35 @@ def run_reg(ctx, R, tr):
     controls_varying = 0
     controls_run = 0
 
-    def observe(label, pset, bodies, voc, fname, argf, scalars, control=False, order=None, L=None):
+    def observe(label, pset, bodies, voc, fname, argf, scalars, control=False, order=None, L=None, longer=None, red=None):
         """one (routine, parameter set): all scalars of one bit length must give one group-level trace"""
         seen = observe1(label, pset, bodies, voc, fname, argf, scalars, control)
         if order is not None and not control:
             for b, vs in length_groups(rng, L, order, ctx.quick):
                 observe1(label, pset, bodies, voc, fname, argf, vs, False, record=False,
                          suffix="|scalar<=%dbits" % R.DIG if b <= R.DIG else "|shorter-scalars")
+        if longer and not control:
+            # scalars LONGER than the group order / the field: still one trace per bit length.  `red` is the modulus a
+            # routine could be tempted to reduce the scalar by first (n, p - 1, 2^m - 1): multiples of it plus a
+            # small value, and values just below a multiple, have the given length but a tiny / maximal residue
+            for b in longer:
+                tr.set_bodies(bodies)
+                probe = (1 << (b - 1)) | rng.getrandbits(b - 1)
+                try:
+                    _, res = tr.calls(voc, fname, *argf(probe))
+                except MonitorViolation:
+                    res = None
+                if res is None or res.caught:
+                    ctx.info.setdefault("longer_scalars_refused", []).append("%s|%s|%d" % (label, pset, b))
+                    continue
+                vs = scalar_classes(rng, b, None, 6 if ctx.quick else 20)
+                if red and red.bit_length() < b - 1:
+                    for lab, small in (("residue-small", 3), ("residue-zero", 0), ("residue-max", red - 1)):
+                        t = ((1 << (b - 1)) // red) + 1 + rng.getrandbits(max(1, b - 2 - red.bit_length()))
+                        v = t * red + small
+                        if v.bit_length() == b:
+                            vs.append((lab, v))
+                observe1(label, pset, bodies, voc, fname, argf, vs, False, record=False, suffix="|longer-scalars")
         return seen
 
     def observe1(label, pset, bodies, voc, fname, argf, scalars, control=False, record=True, suffix=""):
@@ -488,7 +513,7 @@ def run_reg(ctx, R, tr):
             unit += 1
             if ctx.mine(unit) and R.has(fn):
                 observe(fn, name, ("ep_mul_",), EPV, fn, lambda v: (r, g, kbn(v)), scalar_classes(rng, L, n, nsc) + order_edge(n, L),
-                        order=n, L=L)
+                        order=n, L=L, longer=(L + 1, L + 64, 2 * L), red=n)
             # the curve generator as base point (a public input: precomputed tables exist for it)
             unit += 1
             if ctx.mine(unit) and R.has(fn):
@@ -554,7 +579,7 @@ def run_reg(ctx, R, tr):
                     observe(fn, "ED25519", ("ed_mul_",), EDV, fn, lambda v: (r, g, kbn(v)), scalar_classes(rng, L, n, nsc) + order_edge(n, L),
                             order=n, L=L)
     # ---- binary curves and fields, integer / field ladders (256-bit build only: the code is the same)
-    if ctx.cfg == "trace256":
+    if ctx.cfg in ("trace256", "trace256w6"):
         for setter, nm in (("eb_param_set_any_plain", "B283"), ("eb_param_set_any_kbltz", "K283")):
             if not R.has(setter):
                 continue
@@ -580,7 +605,8 @@ def run_reg(ctx, R, tr):
         if ctx.mine(unit) and R.has("fb_exp_monty"):
             observe("fb_exp_monty", "GF(2^%d)" % K["RLC_FB_BITS"], ("fb_exp_",), FBV, "fb_exp_monty",
                     lambda v: (fo, fx, kbn(v)), scalar_classes(rng, K["RLC_FB_BITS"], None, nsc),
-                    order=1 << K["RLC_FB_BITS"], L=K["RLC_FB_BITS"])
+                    order=1 << K["RLC_FB_BITS"], L=K["RLC_FB_BITS"],
+                    longer=(K["RLC_FB_BITS"] + 1, K["RLC_FB_BITS"] + 37, 2 * K["RLC_FB_BITS"]), red=(1 << K["RLC_FB_BITS"]) - 1)
         # bn_mxp_monty, 1024-bit and 512-bit exponents
         for bits in (512, 1024):
             m = rng.getrandbits(bits) | (1 << (bits - 1)) | 1
@@ -589,7 +615,8 @@ def run_reg(ctx, R, tr):
             unit += 1
             if ctx.mine(unit):
                 observe("bn_mxp_monty", "%d-bit" % bits, ("bn_mxp_",), BNV, "bn_mxp_monty", lambda v: (pc, pa, kbn(v), pm),
-                        scalar_classes(rng, bits, None, max(10, nsc // 2)), order=1 << bits, L=bits)
+                        scalar_classes(rng, bits, None, max(10, nsc // 2)), order=1 << bits, L=bits,
+                        longer=(bits + 1, bits + 64) + ((2 * bits,) if bits == 512 else ()))
             unit += 1
             if ctx.mine(unit) and bits == 512:
                 observe("bn_mxp_slide", "%d-bit" % bits, ("bn_mxp_",), BNV, "bn_mxp_slide", lambda v: (pc, pa, kbn(v), pm),
@@ -603,7 +630,8 @@ def run_reg(ctx, R, tr):
             unit += 1
             if ctx.mine(unit):
                 observe("fp_exp_monty", name, ("fp_exp_",), FPV, "fp_exp_monty", lambda v: (o, x, kbn(v)),
-                        scalar_classes(rng, R.p.bit_length(), None, nsc), order=R.p, L=R.p.bit_length())
+                        scalar_classes(rng, R.p.bit_length(), None, nsc), order=R.p, L=R.p.bit_length(),
+                        longer=(R.p.bit_length() + 1, R.p.bit_length() + 64, 2 * R.p.bit_length()), red=R.p - 1)
     ctx.add("controls_run", controls_run)
     ctx.add("controls_varying", controls_varying)
     if controls_run and not controls_varying:
